@@ -423,6 +423,28 @@ def d3(cx: Cx, ob: Ob) -> None:
                 # is, is the registered handler's business and is not followed here.
                 ob.undecide(f"the {fw} handler resolves with expand_pair(strict=True) and leaves unknown prefixes to an ExpansionError handler: the None-test protocol this rule reads is not used")
                 eafp.add(fw)
+            elif nondefault == ["strict"] and is_const(dict(c[3]).get("strict"), True) and any(
+                g.kind == "guard" and any(op(x) == "cmp" and x[1] in ("in", "not in") and any(y == conv for y in subterms(x[3])) for x in subterms(g.a)) for e2, c2 in s.walk() for g in (*c2.guards, e2)
+            ):
+                # a third protocol: the handler first asks the converter whether it knows the prefix (a membership test
+                # on one of its views) and expands strictly only then.  That the view asked holds exactly the names
+                # expand_pair resolves is a statement about that view, not a shape of the handler
+                views = [x[3] for e2, c2 in s.walk() for g in (*c2.guards, e2) if g.kind == "guard" for x in subterms(g.a) if op(x) == "cmp" and x[1] in ("in", "not in") and any(y == conv for y in subterms(x[3]))]
+                canonical_only = [v for v in views if any(op(y) == "call" and op(y[1]) == "attr" and y[1][1] == conv and y[1][2] == "get_prefixes" and not is_const(dict(y[3]).get("include_synonyms"), True) and not (y[2] and is_const(y[2][0], True)) for y in subterms(v)) or any(op(y) == "attr" and y[1] == conv and y[2] == "bimap" for y in subterms(v))]
+                full = [v for v in views if any(op(y) == "call" and op(y[1]) == "attr" and y[1][1] == conv and y[1][2] == "get_prefixes" and (is_const(dict(y[3]).get("include_synonyms"), True) or (y[2] and is_const(y[2][0], True))) for y in subterms(v)) or any(op(y) == "attr" and y[1] == conv and y[2] in ("prefix_map", "synonym_to_prefix") for y in subterms(v))]
+                if canonical_only:
+                    ob.violate(
+                        handler.qualname,
+                        handler.where,
+                        f"the {fw} handler refuses every prefix that is not in `{show(canonical_only[0])[:50]}`, a view of the CANONICAL prefixes only: a registered prefix synonym, which expand_pair resolves, is answered {fc} instead of the redirect",
+                        witness="Record(prefix='CHEBI', prefix_synonyms=['chebi'], ..): GET /chebi:138488 is refused, converter.expand('chebi:138488') is not None",
+                        detail="synonym-refused",
+                    )
+                elif full and len(full) == len(views):
+                    ob.site(f"{handler.where} {handler.qualname}", f"{fw}: prefix looked up among all prefixes and synonyms, then expanded strictly")
+                else:
+                    ob.undecide(f"the {fw} handler decides on a membership test of the prefix in a view of the converter and then calls expand_pair(strict=True): that the view holds exactly the prefixes expand_pair resolves (synonyms included) is not decided here")
+                eafp.add(fw)
             elif nondefault:
                 ob.violate(handler.qualname, handler.where, f"the {fw} handler passes {nondefault} to expand_pair with non-default values: the answer differs from expand()", detail="flags")
         if fw in eafp:
